@@ -425,13 +425,31 @@ pub fn states_differ(
     None
 }
 
+pub static CONFIRM_SPENT_US: std::sync::atomic::AtomicU64 = std::sync::atomic::AtomicU64::new(0);
+pub static CONFIRM_SKIPPED: std::sync::atomic::AtomicU64 = std::sync::atomic::AtomicU64::new(0);
+/// cumulative (all threads) time allowed for behavioural confirmation per process
+pub const CONFIRM_BUDGET_MS: u64 = 20_000;
+
 /// A Debug difference after a no-trace line is not yet a verdict: keep the `asm.trace-*` findings
 /// only if `differs()` exhibits a behavioural difference. Returns true if they were dropped.
 pub fn confirm_traces(f: &mut Findings, differs: impl FnOnce() -> Option<String>) -> bool {
     if !f.iter().any(|(_, sig, _)| sig.starts_with("asm.trace-")) {
         return false;
     }
-    match differs() {
+    // Budget: behavioural confirmation replays whole histories. If representation-only differences
+    // occur on (almost) every line — e.g. a harmless per-line counter — confirming each one would
+    // make the check run for hours. After CONFIRM_BUDGET_MS of cumulative confirmation time in this
+    // process, unconfirmed Debug differences are counted (CONFIRM_SKIPPED) but no longer judged: a
+    // Debug difference alone is never a verdict.
+    if CONFIRM_SPENT_US.load(std::sync::atomic::Ordering::Relaxed) > CONFIRM_BUDGET_MS * 1000 {
+        CONFIRM_SKIPPED.fetch_add(1, std::sync::atomic::Ordering::Relaxed);
+        f.retain(|(_, sig, _)| !sig.starts_with("asm.trace-"));
+        return true;
+    }
+    let t0 = std::time::Instant::now();
+    let verdict = differs();
+    CONFIRM_SPENT_US.fetch_add(t0.elapsed().as_micros() as u64, std::sync::atomic::Ordering::Relaxed);
+    match verdict {
         Some(why) => {
             for (_, sig, w) in f.iter_mut() {
                 if sig.starts_with("asm.trace-") {
